@@ -94,6 +94,9 @@ type Session struct {
 	msgMeta     *module.MsgMetadata
 	delivery    module.Delivery
 	deliveryErr error
+	// Set when MAIL FROM was accepted for the current transaction, go-smtp
+	// does not enforce the command order in all cases.
+	mailReceived bool
 	// Normalized recipient address -> addresses as they
 	// were specified in RCPT TO. Used for LMTP per-recipient statuses.
 	clientRcpts map[string][]string
@@ -120,6 +123,7 @@ func (s *Session) Reset() {
 	if s.delivery != nil {
 		s.abort(s.msgCtx)
 	}
+	s.mailReceived = false
 	s.endp.Log.DebugMsg("reset")
 }
 
@@ -157,6 +161,7 @@ func (s *Session) cleanSession() {
 	s.msgMeta = nil
 	s.delivery = nil
 	s.deliveryErr = nil
+	s.mailReceived = false
 	s.clientRcpts = nil
 	s.msgCtx = nil
 	s.msgTask.End()
@@ -298,6 +303,15 @@ func (s *Session) Mail(from string, opts *smtp.MailOptions) error {
 	s.msgLock.Lock()
 	defer s.msgLock.Unlock()
 
+	if s.mailReceived {
+		// The open transaction would be silently dropped otherwise.
+		return &smtp.SMTPError{
+			Code:         503,
+			EnhancedCode: smtp.EnhancedCode{5, 5, 1},
+			Message:      "Sender is already specified",
+		}
+	}
+
 	if !s.endp.deferServerReject {
 		// Will initialize s.msgCtx.
 		msgID, err := s.startDelivery(s.sessionCtx, from, *opts)
@@ -312,6 +326,7 @@ func (s *Session) Mail(from string, opts *smtp.MailOptions) error {
 	// Keep the MAIL FROM argument for deferred startDelivery.
 	s.mailFrom = from
 	s.opts = *opts
+	s.mailReceived = true
 
 	return nil
 }
@@ -352,6 +367,16 @@ func (s *Session) fetchRDNSName(ctx context.Context) {
 func (s *Session) Rcpt(to string, opts *smtp.RcptOptions) error {
 	s.msgLock.Lock()
 	defer s.msgLock.Unlock()
+
+	if !s.mailReceived {
+		// E.g. after a repeated EHLO: go-smtp starts a new session but
+		// still considers MAIL FROM as received.
+		return &smtp.SMTPError{
+			Code:         503,
+			EnhancedCode: smtp.EnhancedCode{5, 5, 1},
+			Message:      "Missing MAIL FROM command",
+		}
+	}
 
 	// deferServerReject = true and this is the first RCPT TO command.
 	if s.delivery == nil {
@@ -475,6 +500,14 @@ func (s *Session) Data(r io.Reader) error {
 	s.msgLock.Lock()
 	defer s.msgLock.Unlock()
 
+	if s.delivery == nil {
+		return &smtp.SMTPError{
+			Code:         503,
+			EnhancedCode: smtp.EnhancedCode{5, 5, 1},
+			Message:      "Missing MAIL FROM and RCPT TO commands",
+		}
+	}
+
 	bodyCtx, bodyTask := trace.NewTask(s.msgCtx, "DATA")
 	defer bodyTask.End()
 
@@ -551,6 +584,14 @@ func (sw statusWrapper) SetStatus(rcpt string, err error) {
 func (s *Session) LMTPData(r io.Reader, sc smtp.StatusCollector) error {
 	s.msgLock.Lock()
 	defer s.msgLock.Unlock()
+
+	if s.delivery == nil {
+		return &smtp.SMTPError{
+			Code:         503,
+			EnhancedCode: smtp.EnhancedCode{5, 5, 1},
+			Message:      "Missing MAIL FROM and RCPT TO commands",
+		}
+	}
 
 	bodyCtx, bodyTask := trace.NewTask(s.msgCtx, "DATA")
 	defer bodyTask.End()
